@@ -438,6 +438,9 @@ def gen_request(cs, templates, kind=None, allow_slow=False, fail=None, neighbour
 RESMODEL_FAMILY = ('geo_mpf_small', 'geo_lhs_small', 'geo_sf_sorc', 'geo_tdp_orc', 'example2')
 # district heating with the demand computed from an hourly temperature profile: requests that differ in one option value
 DH_FAMILY = ('dh_example12',)
+# requests whose tweaks all concern units: values stated in other units than the preferred ones, `Units:` output overrides, and the few
+# inputs that take a unit-related warning path - whatever a request leaves in a process-wide unit registry meets the next one
+UNITS_FAMILY = ('__units__',)
 
 
 def _gen_request(cs, templates, kind=None, allow_slow=False, fail=None, neighbour_of=None, family=None):
@@ -458,11 +461,19 @@ def _gen_request(cs, templates, kind=None, allow_slow=False, fail=None, neighbou
         # a small family of configurations that differ in the reservoir model; one request in three fails INSIDE the calculation
         pool = [i for i in pool if templates[i]['name'] in family] or pool
         if fail is None:
-            fail = cs.choose(3 if family is not DH_FAMILY else 8, 'fpoison') == 2
+            fail = cs.choose(3 if family not in (DH_FAMILY, UNITS_FAMILY) else 8, 'fpoison') == 2
     ti = pool[cs.choose(len(pool), 'template')]
     t = templates[ti]
     tweaks_tab = HW.HIP_TWEAKS if t['kind'] == 'hip' else HW.GEO_TWEAKS
     tweaks = []
+    if family is UNITS_FAMILY and t['kind'] != 'hip':
+        if 'unit_tweaks' not in _state:
+            _state['unit_tweaks'] = [tw_ for tw_ in HW.GEO_TWEAKS if tw_[0].startswith('Units:') or tw_[0] == 'Starting Heat Sale Price'
+                                     or any(re.match(r'^-?[\d.]+(e[-+]?\d+)?\s+[A-Za-z]', str(v_)) for v_ in tw_[1])]
+        ut = _state['unit_tweaks']
+        for _ in range(1 + cs.choose(2, 'nunit')):
+            a = cs.choose(len(ut), 'unittweak')
+            tweaks.append((ut[a][0], ut[a][1][cs.choose(len(ut[a][1]), 'unittweakv')]))
     if family is DH_FAMILY and t['name'] in DH_FAMILY and HW.DH_TWEAKS:
         a = cs.choose(len(HW.DH_TWEAKS), 'dhtweak')
         tweaks.append((HW.DH_TWEAKS[a][0], HW.DH_TWEAKS[a][1][cs.choose(len(HW.DH_TWEAKS[a][1]), 'dhtweakv')]))
@@ -528,7 +539,7 @@ def _layout(s, fmt):
     return '\n'.join(out)
 
 
-THEMES = ['mixed', 'cache', 'paths', 'mixed', 'faults', 'cache', 'hip', 'resmodels', 'mixed', 'cache', 'paths', 'dh', 'sweep', 'faults']
+THEMES = ['mixed', 'cache', 'paths', 'mixed', 'faults', 'cache', 'hip', 'resmodels', 'mixed', 'cache', 'paths', 'dh', 'sweep', 'faults', 'units', 'cancel']
 
 
 def gen_history(cs, templates, tier, force=None):
@@ -538,7 +549,7 @@ def gen_history(cs, templates, tier, force=None):
     theme = force.get('theme') or THEMES[cs.choose(len(THEMES), 'theme')]
     h['theme'] = theme
     fam = None
-    h['faulty'] = force.get('faulty', theme == 'faults' or (theme == 'mixed' and cs.choose(4, 'faulty') == 3))
+    h['faulty'] = force.get('faulty', theme in ('faults', 'cancel') or (theme == 'mixed' and cs.choose(4, 'faulty') == 3))
     allow_slow = cs.choose(4, 'slow') == 3 if tier == 'thorough' else cs.choose(12, 'slow') == 11
     h['start_cwd'] = CWD_DIRS[cs.choose(len(CWD_DIRS), 'startcwd')]
     nops = 2 + cs.choose(7, 'nops')
@@ -569,6 +580,24 @@ def gen_history(cs, templates, tier, force=None):
         p_neighbour = 0
         fam = RESMODEL_FAMILY
         nops = 6 + cs.choose(5, 'nops_res')
+    elif theme == 'units':
+        kinds = ['run'] * 5 + ['rewrite'] * 6
+        entries = ['client'] * 5 + ['cli', 'main_argv', 'client_params']
+        slot_tab = [0, 0, 1]
+        client_tab = [1, 1, 0]
+        p_neighbour = 0
+        fam = UNITS_FAMILY
+        nops = 5 + cs.choose(4, 'nops_units')
+    elif theme == 'cancel':
+        # a request of one of the reservoir-model families is cancelled somewhere inside its run - at a line of the simulator, not at
+        # a system call - and then asked again (or its neighbour is): whatever the cancelled run had half done is not done
+        kinds = ['run'] * 2 + ['rewrite'] * 2 + ['fault'] * 3
+        entries = ['client'] * 4 + ['main_argv']
+        slot_tab = [0, 0, 1]
+        client_tab = [1, 1, 0]
+        p_neighbour = 2
+        fam = RESMODEL_FAMILY
+        nops = 5 + cs.choose(4, 'nops_cancel')
     elif theme == 'dh':
         # one configuration family (district heating), 3-5 requests that differ in one option value (the census division, the
         # number of housing units, the demand option), through a client that computes every time: whatever a request uses up or
@@ -665,7 +694,7 @@ def gen_history(cs, templates, tier, force=None):
             ops.append({'op': 'write', 'slot': sl, 'req': req, 'kind': slots[sl]['kind'], 'keep_mtime': cs.choose(4, 'keep_mtime') == 3})
             if slots[sl]['kind'] == 'hip' and theme == 'hip':
                 mk_run('hip', sl)
-            elif slots[sl]['kind'] == 'geo' and (theme in ('cache', 'resmodels') or cs.choose(2, 'rerun') == 1):
+            elif slots[sl]['kind'] == 'geo' and (theme in ('cache', 'resmodels', 'units', 'cancel') or cs.choose(2, 'rerun') == 1):
                 # run the rewritten file again straight away (the interesting case for caches)
                 mk_run('client' if theme != 'paths' else 'cli', sl)
         elif kind == 'chdir':
@@ -700,8 +729,11 @@ def gen_history(cs, templates, tier, force=None):
             ops.append({'op': 'mc', 'iterations': 2 + cs.choose(2, 'mcit'), 'W': 1 + cs.choose(2, 'mcw'),
                         'fail': [None, None, None, 'all_iterations', 'no_settings_file'][cs.choose(5, 'mcfail')]})
         elif kind == 'fault':
-            ops.append({'op': 'fault', 'kind': FAULTS[cs.choose(len(FAULTS), 'fkind')],
-                        'at': FAULT_AT[cs.choose(len(FAULT_AT), 'fat')]})
+            if theme == 'cancel':
+                ops.append({'op': 'fault', 'kind': 'cancel_deep', 'at': cs.choose(len(DEEP_AT), 'deepat')})
+            else:
+                ops.append({'op': 'fault', 'kind': FAULTS[cs.choose(len(FAULTS), 'fkind')],
+                            'at': FAULT_AT[cs.choose(len(FAULT_AT), 'fat')]})
             if slots and cs.choose(4, 'frun') != 0:
                 # a fault while idle tests nothing: most armed faults are followed at once by a run on an existing slot
                 sl = sorted(slots)[cs.choose(len(slots), 'fslot')]
